@@ -293,6 +293,7 @@ def check_task_descriptions(ctx):
     names = [d[0] for d in DEPRECATED]
     n     = 0
     check_values_preserved(ctx)
+    check_reverify(ctx)
 
     # (i) complete product of deprecated subsets x replacement set/unset, for
     #     the default mode
@@ -555,6 +556,114 @@ def check_function_tasks(ctx):
 # ------------------------------------------------------------------------------
 # slots
 #
+def check_function_late_binding(ctx):
+    '''
+    a function task carries the callable as it is when the task is encoded
+    (the decorated function is called / PythonTask(...) is built), not as it
+    was when it was decorated: state captured by the callable may change in
+    between
+    '''
+    def make_counter():
+        n = 5
+        def get(x=0):
+            return ('counter', n + x)
+        def bump(by):
+            nonlocal n
+            n += by
+        return get, bump
+
+    class Scaler(object):
+        def __init__(self): self.factor = 2
+        def __call__(self, x=1): return ('scaled', self.factor * x)
+
+    def make_late_helper():
+        def outer(x=1):
+            return ('late', helper(x))
+        return outer, (lambda h: None)
+
+    cases = list()
+    get, bump = make_counter()
+    cases.append(('closure-rebound', get, lambda: bump(10)))
+    sc = Scaler()
+    cases.append(('object-attribute', sc, lambda: setattr(sc, 'factor', 7)))
+    box = {'v': 1}
+    def boxed(x=0): return ('boxed', box['v'] + x)
+    cases.append(('captured-dict', boxed, lambda: box.update(v=41)))
+
+    n = 0
+    for name, f, change in cases:
+        for via in ('pythontask', 'PythonTask'):
+            n += 1
+            replay = {'kind': 'func-late', 'case': name, 'via': via}
+            try:
+                dec = PythonTask.pythontask(f) if via == 'pythontask' else None
+                change()
+                expect = f(3)
+                blob = dec(3) if dec else PythonTask(f, (3,))
+                blob = seams.wire({'function': blob})['function']
+                g, a, k = PythonTask.get_func_attr(blob)
+                got = _call(g, a, k)
+            except Exception as e:
+                ctx.violation('func-transport|PythonTask|late-binding:%s'
+                              % name, '%s via %s raised %r' % (name, via, e),
+                              replay)
+                continue
+            if got != expect:
+                ctx.violation('func-snapshot-stale|PythonTask.pythontask|%s'
+                              % name,
+                              '%s via %s: the decoded function gives %r, the '
+                              'function gave %r when the task was encoded'
+                              % (name, via, got, expect), replay)
+            ctx.outcome(('func-late', name, via, repr(got)))
+    ctx.cover(evaluations=n, func_late_cases=n)
+
+
+def check_reverify(ctx):
+    '''
+    a description may be verified, changed and verified again (it is a long
+    lived object in application code): the second verify() gives what a
+    fresh description with the same content gives
+    '''
+    base = {'executable': '/bin/x'}
+    changes = [{'cpu_processes': 4}, {'gpu_processes': 2},
+               {'mem_per_process': 9}, {'ranks': '8'},
+               {'mode': rptd.TASK_FUNCTION}, {'cpu_threads': 3, 'ranks': 2},
+               {'executable': None, 'mode': rptd.TASK_EXECUTABLE}]
+    n = 0
+    for first in ({}, {'ranks': 2}, {'cpu_processes': 3}):
+        for ch in changes:
+            n += 1
+            replay = {'kind': 'td-reverify', 'first': first, 'change': ch}
+            td = rp.TaskDescription(dict(base, **first))
+            try:
+                td.verify()
+            except Exception as e:
+                continue
+            for k, v in ch.items():
+                td[k] = v
+            fresh = rp.TaskDescription(td.as_dict())
+            res = list()
+            for d in (td, fresh):
+                try:
+                    d.verify()
+                    res.append(d.as_dict())
+                except Exception as e:
+                    res.append('raises %s' % type(e).__name__)
+            if res[0] != res[1]:
+                diff = res if not all(isinstance(r, dict) for r in res) else \
+                       {k: (res[0].get(k), res[1].get(k)) for k in res[1]
+                        if res[0].get(k) != res[1].get(k)}
+                ctx.violation('reverify-differs-from-fresh|'
+                              'TaskDescription.verify|%s'
+                              % '+'.join(sorted(ch)),
+                              'verified %s, then set %s, verified again: %s '
+                              '(same object, fresh object)'
+                              % (dict(base, **first), ch, diff), replay)
+            ctx.outcome(('td-reverify', repr(first), repr(ch),
+                         repr(res[1])[:80]))
+    ctx.cover(evaluations=n, td_reverify_cases=n)
+
+
 def _ref_ro(x):
     '''reference reading of a resource entry: (index, occupation or 1.0)'''
     if isinstance(x, int):
@@ -703,6 +812,7 @@ def run(ctx):
     check_task_descriptions(ctx)
     check_pilot_descriptions(ctx)
     check_function_tasks(ctx)
+    check_function_late_binding(ctx)
     check_slots(ctx)
 
     ctx.set(rule='complete product: 2^13 subsets of deprecated attributes x '
